@@ -16,4 +16,13 @@ for d in /verif/seeded/C*-m*; do
   printf "%s\t%s\t%s\t%s\t%s\n" $id $prop $tier $rc "$(grep -m1 '^violation ' /tmp/seedall.log | cut -d' ' -f2)" >> $out
   git -C /repo checkout -- .
 done
-cat $out
+cross=/verif/seeded/CROSS.tsv
+printf "seed\tcheck\ttier\texit\tfirst violation key\n" > $cross
+while read id prop; do
+  [ -z "$id" ] && continue
+  cd /repo && git apply /verif/seeded/$id/patch.diff || continue
+  cd /verif && ./check $prop $tier > /tmp/seedall.log 2>&1; rc=$?
+  printf "%s\t%s\t%s\t%s\t%s\n" $id $prop $tier $rc "$(grep -m1 '^violation ' /tmp/seedall.log | cut -d' ' -f2)" >> $cross
+  git -C /repo checkout -- .
+done < /verif/seeded/cross.txt
+cat $out $cross
